@@ -142,7 +142,7 @@ def run(ctx, canary=False):
                 "given to Loss.tla; TLC checks ExactlyOnce / GradIsDerivative / SmoothnessBound and prints the exact loss, gradient and "
                 "smoothness constant, which are compared with _marginal_loss / _lipschitz / engine.groups for every spelling "
                 "(dense, sparse, operator, None; str, list, tuple). non-trivial = distinct (measurement set, spelling) with >= 2 measurements")
-    insts = gen_instances(rng, 160 if thorough else 36)
+    insts = gen_instances(rng, 90 if thorough else 36)
     # model cliques as the implementation orders them
     live = []
     for inst in insts:
@@ -175,7 +175,7 @@ def run(ctx, canary=False):
         e = exp.get(i)
         if e is None:
             continue
-        use = styles if (thorough or i <= 3) else ([styles[0]] + rng.sample(styles[1:], 5) if i <= 12 else [styles[0]] + rng.sample(styles[1:], 3))
+        use = styles if ((thorough and i <= 30) or i <= 3) else ([styles[0]] + rng.sample(styles[1:], 5) if thorough else None) or ([styles[0]] + rng.sample(styles[1:], 5) if i <= 12 else [styles[0]] + rng.sample(styles[1:], 3))
         for k, st in enumerate(use):
             # noise scaled by s: loss, gradient and smoothness constant scale by exactly 1/s^2 (L1 by 1/s); every third run is the
             # last of three calls on one warm-started engine
